@@ -270,6 +270,29 @@ Proof.
   - apply (IH false (i + 1)); [|exact Hp]. intros q Hq. apply H. right. exact Hq.
 Qed.
 
+Lemma sorted_from_zeros_app : forall n idx l, sorted_from l (idx + Z.of_nat n) -> sorted_from (zeros_from idx n ++ l) idx.
+Proof.
+  induction n as [|n IH]; intros idx l H.
+  - cbn. replace (idx + Z.of_nat 0) with idx in H by lia. exact H.
+  - cbn [zeros_from app sorted_from]. split; [lia|]. apply IH. replace (idx + 1 + Z.of_nat n) with (idx + Z.of_nat (S n)) by lia. exact H.
+Qed.
+
+Lemma fill_sorted_from : forall m lo, sorted_from m lo -> sorted_from (fill m false lo) lo.
+Proof.
+  induction m as [|[i c] r IH]; intros lo Hs; [exact I|].
+  cbn [sorted_from] in Hs. destruct Hs as [H1 H2]. cbn [fill orb]. destruct (Z.ltb_spec 2 (i - lo)).
+  - cbn [app sorted_from]. split; [exact H1|apply IH; exact H2].
+  - apply sorted_from_zeros_app. replace (lo + Z.of_nat (Z.to_nat (i - lo))) with i by lia.
+    cbn [sorted_from]. split; [lia|apply IH; exact H2].
+Qed.
+
+(* the decoded list has strictly increasing keys *)
+Lemma fill_sorted (m : bmap) : sorted_keys m -> exists lo, sorted_from (fill m true 0) lo.
+Proof.
+  destruct m as [|[i c] r]; intros Hs; [exists 0; exact I|]. cbn [sorted_keys] in Hs. cbn [fill orb app].
+  exists i. cbn [sorted_from]. split; [lia|apply fill_sorted_from; exact Hs].
+Qed.
+
 (* ====================================================================== *)
 (* C. key computation                                                      *)
 (* ====================================================================== *)
